@@ -38,8 +38,20 @@ def assume(a, m, ps):
     return A
 
 
+def assume_attr_order(a, ps):
+    """one function carrying both #[index] and a calling convention, in both attribute orders (the template writes the
+    convention first for `&mut self` functions)"""
+    A = assume(a, 1, ps)
+    f = a[4 + 2:4 + 10]
+    A = [c for c in A if 'a12' not in str(c)]      # drop `f[6] == 0` (a12 is the convention code of function 0)
+    A += [z3.Or(f[6] == 0, f[6] == 3, f[6] == 1)]
+    return A
+
+
 def slices(tier, rng):
     out = []
+    for ps in (4, 8):
+        out.append(Slice('m1-attr-order-ps%d' % ps, 't_vft', 14, lambda a, ps=ps: assume_attr_order(a, ps), opts={'must_reach': ['ok']}, ctx={'m': 1}))
     mmax = 2 if tier == 'quick' else 3
     for ps in (4, 8):
         for m in range(1, mmax + 1):
